@@ -28,7 +28,9 @@ pub broadcast proof fn ax_bitwise_range(a: nat, b: nat)
 impl<'a> Shl<&'a u64> for &'a BigUint { type Output = BigUint; #[verifier::external_body] fn shl(self, rhs: &'a u64) -> BigUint { unimplemented!() } }
 impl<'a> ShlSpecImpl<&'a u64> for &'a BigUint {
     open spec fn obeys_shl_spec() -> bool { true }
-    open spec fn shl_req(self, rhs: &'a u64) -> bool { true }
+    /// RESOURCE precondition: `BigUint << n` materialises all n low zero bits (n/8 bytes of heap) before anybody can look at
+    /// the result; an amount above 2^16 on a non-zero value is treated as an abort (allocation failure), like a panic
+    open spec fn shl_req(self, rhs: &'a u64) -> bool { *rhs <= 65536 || self@ == 0 }
     open spec fn shl_spec(self, rhs: &'a u64) -> BigUint { mk(self@ * pow2(*rhs as nat)) }
 }
 impl<'a> Shr<&'a u64> for &'a BigUint { type Output = BigUint; #[verifier::external_body] fn shr(self, rhs: &'a u64) -> BigUint { unimplemented!() } }
